@@ -208,7 +208,7 @@ def write_evidence(prop, tier, base, ad, agg, det, reported, known_hits, wall, s
     stats = agg['stats']
     faults = {k[6:]: v for k, v in sorted(stats.items()) if k.startswith('fault.')}
     probes = {k[6:]: v for k, v in sorted(stats.items()) if k.startswith('probe.')}
-    other = {k: v for k, v in sorted(stats.items()) if not k.startswith(('fault.', 'probe.'))}
+    other = {k: v for k, v in sorted(stats.items()) if not k.startswith(('fault.', 'probe.', 'fn.', 'r.', 'poison.', 'layout.'))}
     n = max(agg['n'], 0)
     cov = {
         'evaluations': n,
